@@ -441,6 +441,12 @@ fn parse_at_rule(
                             });
                             return Ok(false);
                         }
+                        Token::Function(f) if f.eq_ignore_ascii_case("layer") => {
+                            // a layer name (`@import "a" layer(x.y)`) is not a selector: no class prefixing
+                            let close = ss.append_nested_block(next, input);
+                            convert_rpx_in_block(input, ss, None);
+                            ss.append_nested_block_close(close, input);
+                        }
                         Token::SquareBracketBlock
                         | Token::ParenthesisBlock
                         | Token::Function(_) => {
